@@ -326,7 +326,7 @@ def _count(t):
     return sum(1 + _count(c) for c in t)
 
 
-def _layout_tree(ctx, E, forest, sib, base_off, cu_off, nm, pad=0):
+def _layout_tree(ctx, E, forest, sib, base_off, cu_off, nm, pad=0, empty_parents=False):
     """DIE bytes for a forest under the top DIE.  abbrev 2 = leaf(data1), 3 = parent(data1) [+ sibling attr per `sib`]
     -> (bytes, flat expected list of dict(off,size,code,children,null,depth,val), nesting)"""
     flat = []
@@ -336,8 +336,12 @@ def _layout_tree(ctx, E, forest, sib, base_off, cu_off, nm, pad=0):
     def code(c):
         return enc.uleb_enc(c, 1 + pad)
 
+    # empty_parents: every childless entry uses the abbreviation WITH the children flag and is followed directly by the null entry
+    # that closes its (empty) child list - legal, and the terminator then has that entry as its parent
     def size_of(node):
         kids = node
+        if not kids and empty_parents:
+            return 2 + pad + sibsz + 1 + pad
         if not kids:
             return 2 + pad
         return 2 + pad + sibsz + sum(size_of(k) for k in kids) + 1 + pad
@@ -348,7 +352,24 @@ def _layout_tree(ctx, E, forest, sib, base_off, cu_off, nm, pad=0):
             val = ctx.byte('%s.v%d' % (nm, len(flat)))
             me = dict(off=off, depth=depth, parent=parent, val=val, null=False)
             flat.append(me)
-            if not node:
+            if not node and empty_parents:
+                total = size_of(node)
+                nxt = off + total
+                me.update(size=2 + pad + sibsz, code=3, children=True)
+                b = code(3)
+                if sib == 'ref4':
+                    b += enc.enc_int(nxt - cu_off, 4, E.little)
+                elif sib == 'ref_udata':
+                    b += enc.uleb_enc(nxt - cu_off, 2)
+                elif sib == 'ref_addr':
+                    b += enc.enc_int(nxt, sibsz, E.little)
+                b += [val]
+                term = dict(off=off + len(b), size=1 + pad, code=0, children=None, null=True, depth=depth + 1, parent=me, val=None)
+                flat.append(term)
+                me['terminator'] = term
+                out += b + code(0)
+                off = nxt
+            elif not node:
                 me.update(size=2 + pad, code=2, children=False)
                 out += code(2) + [val]
                 off += 2 + pad
@@ -394,7 +415,7 @@ def h_tree(ctx):
     hdr_probe, hsz = unit_header(E.version, E.fmt64, E.little, E.addr, 0, 'compile', body_len=0, tu=tu)
     top_off = cu_off + hsz
     pad = cfg.get('codepad', 0)
-    body, flat = _layout_tree(ctx, E, forest, sib, top_off + 1 + pad, cu_off, 't', pad)
+    body, flat = _layout_tree(ctx, E, forest, sib, top_off + 1 + pad, cu_off, 't', pad, cfg.get('empty_parents', False))
     full = enc.uleb_enc(1, 1 + pad) + body + (enc.uleb_enc(0, 1 + pad) if forest else [])
     h, _ = unit_header(E.version, E.fmt64, E.little, E.addr, 0, 'compile', body_len=len(full), tu=tu, signature=0x2222 if tu else 0, type_offset=hsz)
     sec += h + full
@@ -626,6 +647,10 @@ def _tree_instances(tier):
                     if mode != 'iter' and _count(forest) not in (3, maxn):
                         continue
                     out.append(dict(env=e, forest=forest, sib=sib, mode=mode, pre=1 if sib == 'ref_addr' else 0))
+    # entries flagged as having children that have none (an empty child list closed at once)
+    for o in list(out):
+        if _count(o['forest']) in (2, 3) and o['env'] is ENVS_Q[0] and o['mode'] in ('iter', 'parent-first', 'random-first'):
+            out.append(dict(o, empty_parents=True))
     # non-minimal ULEB128 abbreviation codes (every code, null entries included, padded by one byte)
     for o in list(out):
         if o['mode'] == 'iter' and _count(o['forest']) in (2, 3, maxn) and o['env'] is ENVS_Q[0]:
